@@ -49,6 +49,14 @@ def gen_upgrade(rng, kinds=None, max_len=3, with_meta=False, new_model=False):
                        {'name': 'n', 'type': 'IntegerField', 'attrs': {'db_index': True}, 'related': None},
                        {'name': 'owner', 'type': 'ForeignKey', 'attrs': {'null': True},
                         'related': 'vapp.%s' % spec1['apps'][0]['models'][0]['name']}]})
+        if new_model == 2:
+            # a second new model with a many-to-many field: model creation takes three CREATE TABLEs
+            spec1['apps'][0]['models'].append({
+                'name': 'Newt', 'table': 'vapp_newt', 'unique_together': [], 'index_together': [], 'indexes': [],
+                'constraints': [],
+                'fields': [{'name': 'id', 'type': 'AutoField', 'attrs': {'primary_key': True}, 'related': None},
+                           {'name': 'label', 'type': 'CharField', 'attrs': {'max_length': 10}, 'related': None},
+                           {'name': 'news', 'type': 'ManyToManyField', 'attrs': {}, 'related': 'vapp.Newm'}]})
     return {'spec0': spec0, 'spec1': spec1, 'muts': muts}
 
 
